@@ -53,7 +53,7 @@ func genText(r *fw.Rand, o textOpts) string {
 			}
 		case 6:
 			if o.lt {
-				w = fw.Pick(r, []string{"<b>", "</i>", "<x y>", "a<b", "<!--", "<?p", "</", "<font>"})
+				w = fw.Pick(r, []string{"<b>", "</i>", "<x y>", "a<b", "<!--", "<?p", "</", "<font>", "<00:05.000>", "<00:00:05.000>", "<v Bob>"})
 			}
 		}
 		parts = append(parts, w)
